@@ -524,6 +524,12 @@ def make_case(rng, seed):
         for v in it.variants:
             if v.rename is not None and not re.fullmatch(r'[A-Za-z][A-Za-z0-9]*', v.rename):
                 v.rename = r.choice(['Renamed', 'other', 'V2'])
+        # serde's enum-level rename_all_fields (1.0.183+) is not read by typeshare and is outside the rule the property spells out;
+        # it is planted only where it changes nothing for serde either: every struct variant has a rename_all of its own, which
+        # takes precedence in serde (seeded C01_f: support for the attribute added with the precedence reversed)
+        structs = [v for v in it.variants if v.kind == 'struct' and v.skip is None]
+        if it.kind == 'alg_enum' and structs and all(v.rename_all in progs.RULES for v in structs) and r.random() < 0.5:
+            it.extra_attrs.append(f'#[serde(rename_all_fields = "{r.choice(progs.RULES)}")]')
     src = progs.source(prog)
     cfgs = {lang: gen_cfg(r, lang, prog) for lang in LANGS}
     return prog, src, cfgs
